@@ -48,6 +48,9 @@ def record_scenarios(jobs, procs=8):
         return pool.map(_run_scenario, jobs, chunksize=1)
 
 
+MAX_FINDINGS_PER_BATCH = 4
+
+
 def validate_batch(scs, tag, invariants=INVARIANTS):
     """validate a list of executed scenarios (same nd, np) in one TLC run; returns list of findings
        [{scenario, violated, line(in scenario), step, diag, pviol}] and number of traces accepted"""
@@ -118,6 +121,9 @@ def validate_batch(scs, tag, invariants=INVARIANTS):
             cont["offset"] = sc.get("offset", 0) + inline - 1
             cont["continued"] = True
             rest = [cont] + rest
+        # enough to report: every further finding costs one more TLC run over the rest of the batch
+        if sum(1 for x in findings if not x.get("known")) >= MAX_FINDINGS_PER_BATCH:
+            break
     return findings, accepted, states
 
 
